@@ -1,7 +1,337 @@
-// Package c12 interprets the C12 op language against the real packages (stub).
+// Package c12 interprets the C12 op language against the real core/circuitbreaker package:
+// thread programs (TryPass / OnRequestComplete calls on one real breaker) are run under the
+// deterministic yield-hook scheduler (verifharness/internal/sched, prefixes "cb."), and after every
+// granted step the breaker's shared words are read back, so that the trace can be compared token by
+// token with the Lean small-step model (lean/Sentinel/Model/BreakerRace.lean).
+//
+//	cb.new <ec|er|sr> <retryTimeoutMs> <minRequestAmount> <threshold: int for ec, f:<bits> for er/sr> <probeNum> <maxRtMs>
+//	thread <tid> <call>+        call = tp | tpb | c:<rt>:ok | c:<rt>:err
+//	sched <entry>*              entry = <tid> | tick:<ms>
+//	results | log | final
+//
+// The breaker is built with StatIntervalMs = 10^9, one bucket, and the case's virtual clock starts on a
+// multiple of 10^9 ms: everything a case records lands in one bucket of the breaker's own leap array,
+// which is what the model's abstract window (bad, total) assumes.
 package c12
 
-import "verifharness/internal/vh"
+import (
+	"errors"
+	"fmt"
+	"reflect"
+	"strconv"
+	"strings"
 
-// New returns the interpreter for C12.
-func New() vh.Interp { return nil }
+	"github.com/alibaba/sentinel-golang/core/base"
+	cb "github.com/alibaba/sentinel-golang/core/circuitbreaker"
+	"verifharness/internal/sched"
+	"verifharness/internal/vh"
+)
+
+const intervalMs = 1000000000
+
+type call struct {
+	tryPass bool
+	blocked bool
+	rt      uint64
+	err     bool
+}
+
+type note struct{ prev, to cb.State }
+
+type listener struct{ log *[]note }
+
+func (l listener) OnTransformToClosed(prev cb.State, _ cb.Rule) {
+	*l.log = append(*l.log, note{prev, cb.Closed})
+}
+func (l listener) OnTransformToOpen(prev cb.State, _ cb.Rule, _ interface{}) {
+	*l.log = append(*l.log, note{prev, cb.Open})
+}
+func (l listener) OnTransformToHalfOpen(prev cb.State, _ cb.Rule) {
+	*l.log = append(*l.log, note{prev, cb.HalfOpen})
+}
+
+type Interp struct {
+	clk     *vh.Clock
+	base    uint64 // start of the current case (ms), a multiple of intervalMs
+	ncase   uint64
+	br      cb.CircuitBreaker
+	rw      *base.ResourceWrapper
+	progs   [][]call
+	log     []note
+	logTid  []int
+	results [][]bool
+	ran     bool
+}
+
+func New() vh.Interp {
+	vh.Silence()
+	it := &Interp{clk: vh.NewClock(1900000000000)}
+	return it
+}
+
+func (it *Interp) Reset() {
+	cb.ClearStateChangeListeners()
+	_ = cb.ClearRules()
+	it.ncase++
+	it.base = 1900000000000 + it.ncase*intervalMs
+	it.clk.SetMs(it.base)
+	it.br, it.progs, it.log, it.logTid, it.results, it.ran = nil, nil, nil, nil, nil, false
+}
+
+func stc(s cb.State) string {
+	switch s {
+	case cb.Closed:
+		return "C"
+	case cb.HalfOpen:
+		return "H"
+	case cb.Open:
+		return "O"
+	}
+	return "?"
+}
+
+var points = map[string]string{
+	"cb.state.get": "sg", "cb.state.set": "ss", "cb.state.cas": "sc", "cb.retry.load": "rl", "cb.retry.store": "rs",
+	"cb.probe.add": "pa", "cb.probe.reset": "pr", "cb.probe.load": "pl",
+}
+
+func tf(b bool) string {
+	if b {
+		return "t"
+	}
+	return "f"
+}
+
+// word reads an unexported uint64 field of the breaker (promoted from circuitBreakerBase); only called
+// while no worker is running.
+func (it *Interp) word(name string) uint64 {
+	return reflect.ValueOf(it.br).Elem().FieldByName(name).Uint()
+}
+
+func (it *Interp) dl() string {
+	d := it.word("nextRetryTimestampMs")
+	if d == 0 {
+		return "-"
+	}
+	return strconv.FormatUint(d-it.base, 10)
+}
+
+func parseCall(s string) (call, bool) {
+	p := strings.Split(s, ":")
+	switch {
+	case len(p) == 1 && p[0] == "tp":
+		return call{tryPass: true}, true
+	case len(p) == 1 && p[0] == "tpb":
+		return call{tryPass: true, blocked: true}, true
+	case len(p) == 3 && p[0] == "c" && (p[2] == "ok" || p[2] == "err"):
+		rt, err := strconv.ParseUint(p[1], 10, 64)
+		if err != nil {
+			return call{}, false
+		}
+		return call{rt: rt, err: p[2] == "err"}, true
+	}
+	return call{}, false
+}
+
+func (it *Interp) newBreaker(t []string) bool {
+	if len(t) != 7 {
+		return false
+	}
+	to, e1 := strconv.ParseUint(t[2], 10, 32)
+	mr, e2 := strconv.ParseUint(t[3], 10, 64)
+	pn, e3 := strconv.ParseUint(t[5], 10, 64)
+	mx, e4 := strconv.ParseUint(t[6], 10, 64)
+	if e1 != nil || e2 != nil || e3 != nil || e4 != nil || to == 0 || to > 100000 {
+		return false
+	}
+	r := &cb.Rule{Resource: fmt.Sprintf("c12-%d", it.ncase), RetryTimeoutMs: uint32(to), MinRequestAmount: mr,
+		StatIntervalMs: intervalMs, StatSlidingWindowBucketCount: 1, ProbeNum: pn, MaxAllowedRtMs: mx}
+	switch t[1] {
+	case "ec":
+		k, err := strconv.ParseUint(t[4], 10, 64)
+		if err != nil {
+			return false
+		}
+		r.Strategy, r.Threshold = cb.ErrorCount, float64(k)
+	case "er", "sr":
+		f, ok := vh.ParseFBits(t[4])
+		if !ok {
+			return false
+		}
+		r.Threshold = f
+		if t[1] == "er" {
+			r.Strategy = cb.ErrorRatio
+		} else {
+			r.Strategy = cb.SlowRequestRatio
+		}
+	default:
+		return false
+	}
+	if err := cb.IsValidRule(r); err != nil {
+		panic("invalid rule: " + err.Error())
+	}
+	bs := cb.BuildResourceCircuitBreaker(r.Resource, []*cb.Rule{r}, nil)
+	if len(bs) != 1 {
+		panic("no breaker built")
+	}
+	it.br = bs[0]
+	it.rw = base.NewResourceWrapper(r.Resource, base.ResTypeCommon, base.Inbound)
+	it.progs, it.log, it.logTid, it.results, it.ran = nil, nil, nil, nil, false
+	cb.ClearStateChangeListeners()
+	cb.RegisterStateChangeListeners(listener{&it.log})
+	return true
+}
+
+func (it *Interp) worker(tid int) func() {
+	prog := it.progs[tid]
+	return func() {
+		for _, c := range prog {
+			if c.tryPass {
+				ctx := base.NewEmptyEntryContext()
+				ctx.Resource = it.rw
+				e := base.NewSentinelEntry(ctx, it.rw, nil)
+				ctx.SetEntry(e)
+				r := it.br.TryPass(ctx)
+				it.results[tid] = append(it.results[tid], r)
+				if c.blocked {
+					// a later rule-check slot (or another breaker of the resource) blocks the request
+					ctx.RuleCheckResult = base.NewTokenResultBlocked(base.BlockTypeCircuitBreaking)
+				}
+				e.Exit()
+			} else {
+				var err error
+				if c.err {
+					err = errors.New("x")
+				}
+				it.br.OnRequestComplete(c.rt, err)
+			}
+		}
+	}
+}
+
+func (it *Interp) runSched(toks []string) string {
+	var es []sched.Entry
+	if len(toks) > 400 {
+		return "bad-op"
+	}
+	for _, t := range toks {
+		if strings.HasPrefix(t, "tick:") {
+			ms, err := strconv.ParseUint(t[5:], 10, 64)
+			if err != nil || ms > 1000000 {
+				return "bad-op"
+			}
+			es = append(es, sched.Tick(ms*1000000))
+			continue
+		}
+		id, err := strconv.ParseUint(t, 10, 31)
+		if err != nil {
+			return "bad-op"
+		}
+		es = append(es, sched.T(int(id)))
+	}
+	ws := make([]func(), len(it.progs))
+	it.results = make([][]bool, len(it.progs))
+	for i := range ws {
+		ws[i] = it.worker(i)
+	}
+	var out []string
+	nres := make([]int, len(it.progs))
+	rep := sched.Run(ws, es, sched.Options{
+		Prefixes: []string{"cb."},
+		OnTick:   func(ns uint64) { it.clk.Ns += ns },
+		AfterStep: func(s sched.Step) {
+			from, to := points[s.From], points[s.To]
+			if s.Start {
+				from = "start"
+			}
+			if s.Done {
+				to = "done"
+			}
+			var b strings.Builder
+			fmt.Fprintf(&b, "%d:%s>%s:%s:%s:%d:%d", s.Tid, from, to, stc(it.br.CurrentState()), it.dl(),
+				it.word("curProbeNumber"), it.clk.CurrentTimeMillis()-it.base)
+			for len(it.logTid) < len(it.log) {
+				n := it.log[len(it.logTid)]
+				it.logTid = append(it.logTid, s.Tid)
+				fmt.Fprintf(&b, ":L%s%s", stc(n.prev), stc(n.to))
+			}
+			for ; nres[s.Tid] < len(it.results[s.Tid]); nres[s.Tid]++ {
+				b.WriteString(":R" + tf(it.results[s.Tid][nres[s.Tid]]))
+			}
+			out = append(out, b.String())
+		},
+	})
+	it.ran = true
+	if rep.Err != nil {
+		return "ERR " + rep.Err.Error()
+	}
+	for i, th := range rep.Threads {
+		if th.Panic != nil {
+			return fmt.Sprintf("PANIC thread %d: %v", i, th.Panic)
+		}
+	}
+	if len(out) == 0 {
+		return "-"
+	}
+	return strings.Join(out, " ")
+}
+
+func (it *Interp) Step(t []string, op string) string {
+	switch t[0] {
+	case "cb.new":
+		if !it.newBreaker(t) {
+			return "bad-op"
+		}
+		return ""
+	case "thread":
+		if it.br == nil || len(t) < 3 || t[1] != strconv.Itoa(len(it.progs)) || len(it.progs) >= 8 {
+			return "bad-op"
+		}
+		var p []call
+		for _, s := range t[2:] {
+			c, ok := parseCall(s)
+			if !ok {
+				return "bad-op"
+			}
+			p = append(p, c)
+		}
+		it.progs = append(it.progs, p)
+		return ""
+	case "sched":
+		if it.br == nil {
+			return "bad-op"
+		}
+		r := it.runSched(t[1:])
+		it.progs = nil
+		return r
+	case "results":
+		if !it.ran {
+			return "bad-op"
+		}
+		var xs []string
+		for i, rs := range it.results {
+			ys := make([]string, len(rs))
+			for j, r := range rs {
+				ys[j] = tf(r)
+			}
+			xs = append(xs, fmt.Sprintf("%d:%s", i, vh.List(ys)))
+		}
+		return strings.Join(xs, " ")
+	case "log":
+		if !it.ran {
+			return "bad-op"
+		}
+		xs := make([]string, len(it.log))
+		for i, n := range it.log {
+			xs[i] = fmt.Sprintf("%s>%s@%d", stc(n.prev), stc(n.to), it.logTid[i])
+		}
+		return vh.List(xs)
+	case "final":
+		if !it.ran {
+			return "bad-op"
+		}
+		return fmt.Sprintf("st=%s dl=%s probe=%d clk=%d", stc(it.br.CurrentState()), it.dl(), it.word("curProbeNumber"),
+			it.clk.CurrentTimeMillis()-it.base)
+	}
+	return "bad-op"
+}
